@@ -227,7 +227,8 @@ class C22(S4UCheck):
     def nontrivial(self, plan, res):
         if '_st' not in res:
             self.oracle(plan, res)
-        return res['_st']['fired'] >= 3 and res['_st']['spanned'] >= 1
+        st = res.get('_st', {})
+        return st.get('fired', 0) >= 3 and st.get('spanned', 0) >= 1
 
     def signature(self, plan, res):
         import dst
